@@ -53,7 +53,7 @@ PROPS = {
         explanation="the contracts of C06/C07/C13/C14 are feature-independent statements about den/supp/paths/depth/models; each cfg-split body is verified against the same postconditions under each feature combination (vx evaluates #[cfg] exactly as rustc does). An obligation that fails under some configuration but is discharged (or does not exist) under the default configuration is a C12 violation; obligations failing in all configurations belong to their owning property. Documented exception: memoised model counting with adhoccounting but without adhoccountmodels (models_memo_exact() == false) is excluded, not proved",
         not_decided=["ADF-level semantics are verified against the bdd contracts, which are identical in all configurations (run under default features)"]),
     "C13": dict(
-        units=dict(quick=BDD_QUICK, thorough=[("bdd", c) for c in ALL12]), probes=dict(quick=BDD_PROBES, thorough=BDD_PROBES), depends=["C06"],
+        units=dict(quick=BDD_QUICK, thorough=[("bdd", c) for c in ALL12]), probes=dict(quick=BDD_PROBES, thorough=BDD_PROBES), inherits=["C06"], depends=[],
         assumptions=COMMON_ASSUME + ["machine arithmetic: the usize counter arithmetic is NOT assumed to be exact - each overflow site is a failing obligation listed as an open known finding (F6-*); all other postconditions of those functions are proved past them, i.e. under no-overflow at those sites"],
         explanation="count table entries equal paths_spec / depth_spec / models_spec (standard recurrences over the DAG) for every handle (wf_counts); var_deps equal supp (wf_deps) and lemma_supp_indep ties supp to semantic dependence; paths, max_depth, models, modelcount_naive, modelcount_memoization return the spec values (naive == memoised because both equal the spec); passive/active_var_impact count exactly the dependencies; ModelCounts::more_models <=> models >= cmodels",
         not_decided=["the #sat ratio lemma (models : counter-models == satisfying : falsifying assignments) and the path-cube contract of Bdd::interpretations are not yet under contract"]),
@@ -82,21 +82,21 @@ PROPS = {
         not_decided=["add_ng silently ignores the empty nogood (size 0 has no bucket): the excluded-set equation is stated for non-empty nogoods, for the empty one the store is proved unchanged - documented corner, see DESIGN 5 C18",
                      "incomplete propagation (a bucket whose conclusions contradict each other is skipped) is consistent with all three clauses and deliberately not flagged"]),
     "C01": dict(
-        units=[("adf", "default"), ("bdd", "default")], probes=dict(quick=[("adf", "default")], thorough=[("adf", "default"), ("bdd", "default")]), depends=["C06", "C07"],
+        units=[("adf", "default"), ("bdd", "default")], probes=dict(quick=[("adf", "default")], thorough=[("adf", "default"), ("bdd", "default")]), inherits=["C06", "C07"], depends=[],
         assumptions=[COMMON_ASSUME[0], COMMON_ASSUME[1], COMMON_ASSUME[2], COMMON_ASSUME[3], COMMON_ASSUME[4],
                      "the bdd unit's functions are imported by contract only (external_body with the contract text of contracts/bdd.vspec); their bodies are verified in the bdd unit, which this check also runs",
                      "the ADF's acceptance conditions are handles of the shared store (Adf::wf(): bdd.wf() and ac[i] < nodes.len()); established by from_parser (C09) and preserved by every function here"],
         explanation="lowered real text of Adf::grounded_internal / grounded: post-1 den(r[i]) == cof(den(in[i]), r, n) (every entry is its condition restricted by all decided entries of the result), a ghost rank derivation (each decided entry is a constant once the entries of smaller rank are substituted), termination (n - t_vals decreases); sp::lemma_grounded_is_lfp (canonicity + induction on the rank) turns this into the postcondition is_lfp(dens(ac), tvs(r)): r is a fixpoint of the three-valued consequence operator Gamma and is below every fixpoint; the least fixpoint is unique (lemma_lfp_unique), every other statement is undecided",
         not_decided=["biodivine and hybrid back-ends (adfbiodivine::Adf::grounded_internal over biodivine_lib_bdd, hybrid_step): not under contract yet - the native back-end is proved against the abstract least fixpoint, 'same on all back-ends' would follow from the same contract on the stubbed biodivine API plus C09's bridge"]),
     "C02": dict(
-        units=[("adf", "default"), ("bdd", "default"), ("iters", "default")], probes=dict(quick=[("adf", "default")], thorough=[("adf", "default")]), depends=["C06", "C07", "C01", "C20"],
+        units=[("adf", "default"), ("bdd", "default"), ("iters", "default")], probes=dict(quick=[("adf", "default")], thorough=[("adf", "default")]), inherits=["C06", "C07", "C01", "C20"], depends=[],
         assumptions=[COMMON_ASSUME[0], COMMON_ASSUME[1], COMMON_ASSUME[2], COMMON_ASSUME[3], COMMON_ASSUME[4],
                      "the bdd unit's functions are imported by contract only (external_body with the contract text of contracts/bdd.vspec); their bodies are verified in the bdd unit, which this check also runs",
                      "the ADF's acceptance conditions are handles of the shared store (Adf::wf(): bdd.wf() and ac[i] < nodes.len()); established by from_parser (C09) and preserved by every function here"] + ["rule C: the closure passed to .filter(..) in Adf::complete is lifted to Adf::complete__c0 (captured variables become parameters, body verbatim); the body of complete is checked syntactically to be `ThreeValuedInterpretationsIterator::new(&self.grounded()).filter(c0)` (shape obligation); std's Iterator::filter yields exactly the elements satisfying the predicate, in order (ASSUMED)"],
         explanation="complete__c0(ac, v) <==> is_fix(dens(ac), tvs(v)): v is a fixpoint of Gamma (a statement is true/false in v iff its condition is valid/unsatisfiable under v, undecided otherwise) - via post cof(den(ac[i]), v) per entry, canonicity (lemma_tvo_gamma) and Term::compare_inf's truth table. Composition (pure lemmas): the candidates are exactly the refinements of the grounded interpretation, each once, grounded itself first (C20); every fixpoint refines the least fixpoint (lemma_fix_refines_lfp, C01); the grounded interpretation is a fixpoint (lemma_lfp_is_fix) so it passes the filter and is listed first",
         not_decided=["biodivine back-end's complete()", "laziness / interleaving of the returned iterator with other uses of the ADF (excluded by the borrow checker: the iterator holds &mut self)"]),
     "C03": dict(
-        units=[("adf", "default"), ("bdd", "default"), ("iters", "default")], probes=dict(quick=[("adf", "default")], thorough=[("adf", "default")]), depends=["C06", "C07", "C01", "C20"],
+        units=[("adf", "default"), ("bdd", "default"), ("iters", "default")], probes=dict(quick=[("adf", "default")], thorough=[("adf", "default")]), inherits=["C06", "C07", "C01", "C20"], depends=[],
         assumptions=[COMMON_ASSUME[0], COMMON_ASSUME[1], COMMON_ASSUME[2], COMMON_ASSUME[3], COMMON_ASSUME[4],
                      "the bdd unit's functions are imported by contract only (external_body with the contract text of contracts/bdd.vspec); their bodies are verified in the bdd unit, which this check also runs",
                      "the ADF's acceptance conditions are handles of the shared store (Adf::wf(): bdd.wf() and ac[i] < nodes.len()); established by from_parser (C09) and preserved by every function here"] + ["rule C: the closures of stable / stable_with_prefilter / stable_bdd_representation are lifted (bodies verbatim) and the chain shapes `TwoValuedInterpretationsIterator::new(&grounded).map(c0).filter(c1).map(c2)` resp. `candidates.into_iter().filter(c0).collect()` are checked syntactically; std map/filter/collect meaning ASSUMED", "biodivine's stable_model_candidates (sat_valuations of the rewriting) is outside this unit: assumed to list every two-valued model"],
